@@ -2,6 +2,7 @@
 #
 # Copyright (c) 2015-2020 ODC Contributors
 # SPDX-License-Identifier: Apache-2.0
+import threading
 import warnings
 from typing import (
     TYPE_CHECKING,
@@ -54,7 +55,9 @@ def _make_crs_key(crs_spec: Union[int, str, Hashable, CRSLike]) -> Hashable:
     return crs_spec.to_wkt()
 
 
-@cachetools.cached(_crs_cache, key=_make_crs_key)
+# lock: with concurrent first construction everyone has to get the one object that
+# stays in the cache, transformer cache below is keyed by identity of these
+@cachetools.cached(_crs_cache, key=_make_crs_key, lock=threading.Lock())
 def _make_crs(
     crs_spec: Union[str, int, _CRS, CRSLike]
 ) -> Tuple[_CRS, str, Optional[int]]:
